@@ -28,9 +28,6 @@ def gen_case(rng, pi_method=None, size="small", **kw):
     pi = pi_method or rng.choice(["nonparametric", "gaussian", "bootstrap"])
     district = kw.pop("district") if "district" in kw else rng.random() < 0.25
     aggregates = kw.pop("aggregates", None)
-    if pi == "bootstrap" and "roles" not in kw:
-        # a feed row with a NaN count poisons every bootstrap aggregate (known finding KF-4): kept out of the main stream
-        kw["roles"] = [r for r in E.ROLES if r != "nan-estimand"]
     kw.setdefault("min_reporting", 12 if pi == "bootstrap" else 8)
     if "roles" not in kw and rng.random() < 0.12:
         # nothing left to predict: every baseline unit has reported (or is excluded), plus unexpected units
@@ -499,7 +496,7 @@ def boot_margin_checks(run, case, tables, props):
                 nan_feed = bool(case["election"].cur[["results_dem", "results_gop"]].isna().any().any())
                 run.violation("bootstrap aggregate is NaN" + (" (a feed row has a NaN count)" if nan_feed else ""),
                               input=L, where={"level": level, "group": list(key)}, impl=str(r),
-                              predicate="counted_conserved_margin", signature="KF-4" if nan_feed else "C01:boot-nan",
+                              predicate="counted_conserved_margin", signature="C01:boot-nan",
                               replay_case=case_json(case))
                 break
             tag = {"level": level, "group": list(key)}
